@@ -203,6 +203,7 @@ def forensics(qc, n_in, sp=None, preset=None):
         if q < len(st) and st[q]:
             inv.append(("free_ancilla_not_zero_at_final_uncompute", P, q))
     LOG["inv_fails"] = inv
+    LOG["inv_class"] = _classify_inv(inv[0], G, P) if inv else None
     devs = []
     ptr = 0
     freed = set(free0)
@@ -248,3 +249,87 @@ def forensics(qc, n_in, sp=None, preset=None):
         devs.append(("align", ptr, ("align",)))
     devs.sort(key=lambda d: -d[1] if d[0] != "align" else -10**9)
     return devs
+
+
+def _classify_inv(first, G, P):
+    """A free/recycled ancilla that is not |0>: was it released by an inline uncompute() batch that replayed one of its
+    gates after a control qubit of that gate had itself been reset by an inline batch?  (stale control in uncompute())"""
+    kind, t, q = first
+    batches = [e for e in LOG.get("inline", []) if q in e[2] and e[1] <= t]
+    if not batches:
+        return "not-released-by-inline-uncompute"
+    t0, t1, _ = batches[-1]
+    for j in range(t0, min(t1, P)):
+        g, w, p = G[j]
+        if not w or w[-1] != q or revsim.gate_kind(g) == "nop":
+            continue
+        origin = None
+        for k in range(t0 - 1, -1, -1):
+            gk, wk, pk = G[k]
+            if type(gk).__name__ == type(g).__name__ and list(wk) == list(w):
+                origin = k
+                break
+        if origin is None:
+            continue
+        for c in w[:-1]:
+            for e in LOG.get("inline", []):
+                if c in e[2] and origin < e[1] <= j + 1 and any(G[m][1] and G[m][1][-1] == c for m in range(max(origin + 1, e[0]), min(e[1], j + 1))):
+                    return "inline-stale-control"
+    return "other"
+
+
+def scratch_invariants(qc, n_in, sp=None, preset=None):
+    """Simulate the compute part and check the scratch invariants (every recycled ancilla is |0> when handed out; every
+    ancilla listed free at the final uncompute is |0>).  -> (first failure or None, its class)"""
+    sp = sp or Space(n_in)
+    P = LOG.get("ua_pre_len")
+    if P is None:
+        P = len(qc.gates)
+    G = qc.gates[:P]
+    st = revsim.initial_state(qc.num_qubits, n_in, sp, preset)
+    reuse_at = {}
+    if LOG.get("ri_removed", 0) == 0:
+        for q, t in LOG.get("reuse", []):
+            reuse_at.setdefault(t, []).append(q)
+    ALL = sp.ALL
+    first = None
+    for i, (g, w, p) in enumerate(G):
+        for q in reuse_at.get(i, ()):
+            if st[q] and first is None:
+                first = ("reused_ancilla_not_zero", i, q)
+        if revsim.gate_kind(g) == "nop":
+            continue
+        c = ALL
+        for q in w[:-1]:
+            c &= st[q]
+        st[w[-1]] ^= c
+    if first is None:
+        for q in sorted(LOG.get("ua_free_entry", set())):
+            if q < len(st) and st[q]:
+                first = ("free_ancilla_not_zero_at_final_uncompute", P, q)
+                break
+    return first, (_classify_inv(first, G, P) if first else None)
+
+
+def blame_wrong_output(case, unc, compile_fn, log):
+    """Root cause of an output that the C02 monitor finds wrong: (1) in-place negation finding, by counterfactual;
+    (2) a recycled ancilla that an inline uncompute() released while not |0> (KF-C03-2), by the scratch invariants."""
+    install_counterfactual()
+    COUNTERFACTUAL["no_inplace_not"] = True
+    try:
+        qc2, n2, r2, e2, _ = compile_fn(case, unc)
+        o2 = observe(qc2, n2, r2, e2)
+        if not o2.wrong_out and not o2.ret_unmapped:
+            return "c02_inplace_not_clobbers_operand"
+    except Exception:
+        pass
+    finally:
+        COUNTERFACTUAL["no_inplace_not"] = False
+    try:
+        qc1, n1, r1, e1, _ = compile_fn(case, unc)
+        first, cls = scratch_invariants(qc1, len(n1))
+        if first is not None and first[0] == "reused_ancilla_not_zero" and cls == "inline-stale-control":
+            return "c03_inline_uncompute_stale_control"
+    except Exception:
+        pass
+    return None
